@@ -1,0 +1,16 @@
+//go:build verif
+
+package nat
+
+import "io"
+
+// Verification hook (build tag "verif"), used by the /verif C10 correspondence harness.
+// Not compiled into normal builds. Injection point only, no behaviour.
+
+// VerifSetLogWriter replaces the logger's output writer, so that the harness can capture the
+// NAT log lines in memory instead of on stdout / in a file.
+func (l *Logger) VerifSetLogWriter(w io.Writer) {
+	l.mu.Lock()
+	l.writer = w
+	l.mu.Unlock()
+}
